@@ -247,10 +247,13 @@ func genRequest(c *h.Case, rc *routeCfg, k int, bigBody int64) *genReq {
 	}
 	// early answer: the backend responds on the request head alone (e.g. an upload it rejects or
 	// answers while still receiving) and reads the body afterwards
-	if g.Framing != "none" && g.BodySize > 0 && rng.Intn(6) == 0 {
+	if g.Framing != "none" && g.BodySize > 0 && rng.Intn(6) == 0 && p.Status != 204 && p.Status != 304 && g.Method != "HEAD" {
 		p.Early = true
 		p.DelayMs = 0
-		if rng.Intn(2) == 0 && p.Status != 204 && p.Status != 304 && g.Method != "HEAD" {
+		if p.Size < 2 {
+			p.Size = 2 + int64(rng.Intn(4096))
+		}
+		if rng.Intn(2) == 0 {
 			// a long answer that is still being sent while the upload goes on
 			p.PaceMs = 1 + rng.Intn(2)
 			p.Size = 256*1024 + int64(rng.Intn(512*1024))
